@@ -238,6 +238,40 @@ pub fn run(ctx: &mut Ctx) -> (String, Value, Vec<String>) {
             }
         }
     }
+    // (a') long traces: every cost sequence over {0, 1, 5} of length 10 (quick) / {0, 1, 2, 7} of
+    // length 10 (thorough), wide windows
+    {
+        let vals: Vec<u64> = if quick { vec![0, 1, 5] } else { vec![0, 1, 2, 7] };
+        let len = 10usize;
+        let n = AtomicU64::new(0);
+        let bad = Mutex::new(Vec::<(String, Value)>::new());
+        (0..(vals.len() as u64).pow(len as u32)).into_par_iter().for_each(|idx| {
+            let t: Vec<u64> = crate::props::uni::product_index(idx, vals.len(), len).into_iter().map(|k| vals[k]).collect();
+            for max_n in [2usize, 6, 9, 10, 13] {
+                n.fetch_add(1, Ordering::Relaxed);
+                let spec = CostSpec::CurveFromTrace { costs: t.clone(), max_n };
+                match catch(|| {
+                    let c = spec.build();
+                    (0..=2 * len + 3).map(|k| su(c.cost_of_jobs(k))).collect::<Vec<_>>()
+                }) {
+                    Err(e) => bad.lock().unwrap().push((format!("cost trace {:?} max_n={max_n}: panic {e}", t), json!({"spec": spec}))),
+                    Ok(cum) => {
+                        if let Some(k) = (0..=2 * len + 3).find(|k| cum[*k] < max_run(&t, *k)) {
+                            let mut b = bad.lock().unwrap();
+                            if b.len() < 20 {
+                                b.push((format!("cost trace {:?} max_n={max_n}: a run of {k} consecutive jobs costs {} but cost_of_jobs({k}) = {}", t, max_run(&t, k), cum[k]), json!({"spec": spec})));
+                            }
+                        }
+                    }
+                }
+            }
+        });
+        evals += n.load(Ordering::Relaxed);
+        nontrivial += n.load(Ordering::Relaxed) / 2;
+        for (w, c) in bad.into_inner().unwrap() {
+            ctx.violation("wcet::Curve::from_trace#undercounts-run", &w, "cost-trace", c);
+        }
+    }
     // (b) laws for all models
     for c in 0..=4u64 {
         laws(ctx, "wcet::Scalar", &CostSpec::Scalar(c), 12, &mut evals);
@@ -284,6 +318,51 @@ pub fn run(ctx: &mut Ctx) -> (String, Value, Vec<String>) {
                     ctx.violation("wcet::Curve::extrapolate#does-not-terminate", &format!("prefix {:?} extrapolate({upto}): no answer within 10 s", pf), "cost-ext", case)
                 }
             }
+        }
+    }
+    // (b'') long measured prefixes with rare expensive jobs (one job in P costs K), queried far
+    // beyond the prefix through the auto-extrapolating wrapper: all laws, and never above the
+    // plain curve; plus job counts beyond 2^32 on the non-caching models (monotone there, too)
+    for (pp, kk) in [(7usize, 9u64), (25, 50), (50, 50), (100, 50)] {
+        for max_n in [49usize, 66, 100] {
+            let len = 3 * pp.max(40);
+            let trace: Vec<u64> = (0..len).map(|i| if i % pp == pp - 1 { kk } else { 1 }).collect();
+            let cum: Vec<u64> = {
+                let c = wcet::Curve::from_trace(trace.iter().map(|x| s(*x)), max_n);
+                (1..=max_n.min(len)).map(|n| su(c.cost_of_jobs(n))).collect()
+            };
+            laws(ctx, "wcet::ExtrapolatingCurve", &CostSpec::ExtCurve(cum.clone()), 300, &mut evals);
+            laws(ctx, "wcet::Curve", &CostSpec::Curve(cum.clone()), 300, &mut evals);
+            nontrivial += 2;
+            evals += 1;
+            let c2 = cum.clone();
+            match with_timeout(30.0, move || {
+                let plain = wcet::Curve::new(c2.iter().map(|x| s(*x)).collect());
+                let ext = wcet::ExtrapolatingCurve::new(plain.clone());
+                (0..=300usize).find(|n| ext.cost_of_jobs(*n) > plain.cost_of_jobs(*n)).map(|n| (n, su(plain.cost_of_jobs(n)), su(ext.cost_of_jobs(n))))
+            }) {
+                Ok(None) => {}
+                Ok(Some((n, a, b))) => ctx.violation("wcet::ExtrapolatingCurve::cost_of_jobs#above-the-plain-curve", &format!("prefix of {} entries (one job in {pp} costs {kk}): cost_of_jobs({n}) = {b} through the extrapolating wrapper, {a} on the plain curve", cum.len()), "cost", json!({"spec": CostSpec::ExtCurve(cum.clone()), "nmax": 300})),
+                Err(e) => ctx.violation("wcet::ExtrapolatingCurve#fails", &format!("prefix of {} entries: {:?}", cum.len(), e), "cost", json!({"spec": CostSpec::ExtCurve(cum.clone()), "nmax": 300})),
+            }
+        }
+    }
+    // (Multiframe::cost_of_jobs walks all n frames: not a candidate for n = 2^40)
+    for spec in [CostSpec::Scalar(3), CostSpec::Curve(vec![3]), CostSpec::Curve(vec![2, 3, 5]), CostSpec::CurveFromTrace { costs: vec![1, 1, 5, 1], max_n: 3 }] {
+        evals += 1;
+        let sp = spec.clone();
+        let far: Vec<usize> = vec![1 << 31, (1 << 32) - 1, 1 << 32, (1 << 32) + 1, (1 << 33) + 7, 3 << 32, 1 << 40];
+        let f2 = far.clone();
+        match with_timeout(30.0, move || {
+            let m = sp.build();
+            f2.iter().map(|n| su(m.cost_of_jobs(*n))).collect::<Vec<u64>>()
+        }) {
+            Ok(v) => {
+                if let Some(i) = (1..v.len()).find(|i| v[*i] < v[*i - 1]) {
+                    ctx.violation(&format!("wcet::{}::cost_of_jobs#not-monotone+far", match &spec { CostSpec::Scalar(_) => "Scalar", CostSpec::Multiframe(_) => "Multiframe", _ => "Curve" }), &format!("{:?}: cost_of_jobs({}) = {} but cost_of_jobs({}) = {}", spec, far[i - 1], v[i - 1], far[i], v[i]), "cost-far", json!({"spec": spec}));
+                }
+            }
+            Err(e) => ctx.violation("wcet#fails+far", &format!("{:?}: {:?}", spec, e), "cost-far", json!({"spec": spec})),
         }
     }
     // (b') curves collected from an iterator of cumulative costs: the constructor repairs
@@ -354,7 +433,7 @@ pub fn run(ctx: &mut Ctx) -> (String, Value, Vec<String>) {
     let cov = json!({
         "evaluations": evals,
         "distinct_nontrivial": nontrivial,
-        "rule": format!("(a) every cost trace of length <= {tl} over 0..={hi} x max_n 1..={mn}: every run length up to twice the trace, plus extrapolation arguments; (b) laws for every scalar, multiframe vector (length <= 4 over 0..=3) and monotone sub-additive cumulative prefix, and for every (also non-monotone) cumulative vector of length <= 4/5 collected through FromIterator; (c) every query history up to depth {depth} over a 9-letter alphabet on two clones vs a fresh object per query; non-trivial = non-constant traces of length > 2 / vectors / prefixes / histories (half counted)"),
+        "rule": format!("(a) every cost trace of length <= {tl} over 0..={hi} x max_n 1..={mn}: every run length up to twice the trace, plus extrapolation arguments; every cost sequence of length 10 over three (thorough: four) values x five window widths; (b) laws for every scalar, multiframe vector (length <= 4 over 0..=3) and monotone sub-additive cumulative prefix, and for every (also non-monotone) cumulative vector of length <= 4/5 collected through FromIterator; (c) every query history up to depth {depth} over a 9-letter alphabet on two clones vs a fresh object per query; non-trivial = non-constant traces of length > 2 / vectors / prefixes / histories (half counted)"),
         "histories": nh,
         "samples": samples,
         "exhaustive": true,
@@ -384,6 +463,16 @@ pub fn replay(kind: &str, case: &Value, key: &str) -> bool {
                 return r.unwrap_or(true);
             }
             true
+        }
+        "cost-far" => {
+            let spec: CostSpec = serde_json::from_value(case["spec"].clone()).unwrap();
+            let far: Vec<usize> = vec![1 << 31, (1 << 32) - 1, 1 << 32, (1 << 32) + 1, (1 << 33) + 7, 3 << 32, 1 << 40];
+            let r = catch(|| {
+                let m = spec.build();
+                far.iter().map(|n| su(m.cost_of_jobs(*n))).collect::<Vec<u64>>()
+            });
+            println!("replay: {:?}", r);
+            r.map(|v| v.windows(2).any(|w| w[1] < w[0])).unwrap_or(true)
         }
         "cost-iter" => {
             let v: Vec<u64> = serde_json::from_value(case["cumulative"].clone()).unwrap();
